@@ -44,7 +44,7 @@ PROPS = {
     },
     "C14": {
         "timeouts_not_mine": True,
-        "lean_modules": ["Props.Cells", "Props.Clean", "Props.C01p", "Props.Gen14"],
+        "lean_modules": ["Props.Cells", "Props.Clean", "Props.C01p", "Props.Gen14", "Props.Gen13", "Props.GenT13"],
         "groups": [{"name": "C14", "quick": 3000, "thorough": 80000}, {"name": "render", "quick": 1200, "thorough": 30000},
                    # the same under configured colours (what style.Color/Red/Code/Highlight read is the configuration, not a constant)
                    {"name": "C14", "quick": 1500, "thorough": 40000, "workers": 6, "config": C14_COLOURS},
@@ -218,7 +218,7 @@ PROPS = {
         "assumptions": [],
     },
     "C13": {
-        "lean_modules": ["Props.C13s"],
+        "lean_modules": ["Props.C13s", "Props.Gen13", "Props.GenT13"],
         "groups": [{"name": "C13", "quick": 6000, "thorough": 200000},
                    {"name": "C13x", "quick": 0, "thorough": 6, "workers": 1}, {"name": "unicodeall", "quick": 0, "thorough": 1, "workers": 1}],
         "rule": "styled text from a cell grammar (words, runs of all IsSpace kinds, newlines, nested SGR attributes; 1 in 5 a hostile ESC/[/m string) x widths -3..250; "
@@ -332,7 +332,7 @@ MANIFEST_TEXT = {
         "technique": "Lean 4 proof (ghost-label invariant by mutual induction over the renderer) + differential correspondence with a label oracle",
     },
     "C14": {
-        "text": "Lean theorems: the terminal displays each cell of rendered clean text with exactly its attributes and is neutral after every cell; for every nesting/concatenation of the style functions over ESC-free text the result is the rendering of cells whose attributes are exactly the enclosing functions; clean text stays clean (hence neutral at every line break and at the end) under wrap, dumbwrap, pad, indent, snip, centring, last-line replacement and the renderers, and can be cut at line boundaries. Tied to style.go/ansi.go by differential correspondence on style expressions and layout pipelines, running the terminal state machine on the implementation's output.",
+        "text": "Lean theorems: the terminal displays each cell of rendered clean text with exactly its attributes and is neutral after every cell; for every nesting/concatenation of the style functions over ESC-free text the result is the rendering of cells whose attributes are exactly the enclosing functions; clean text stays clean (hence neutral at every line break and at the end) under wrap, dumbwrap, pad, indent, snip, centring, last-line replacement and the renderers, and can be cut at line boundaries. Tied to style.go/ansi.go by translation (style.go: Props/Gen14.lean; ansi.Apply and the horizontal layout functions: Props/Gen13.lean, the attribute on exactly the non-newline cells restated on the translated Apply in Props/GenT13.lean) and by differential correspondence on style expressions and layout pipelines, running the terminal state machine on the implementation's output.",
         "design_ref": "DESIGN.md §5 C14",
         "note": "Trusted: Lean kernel; correspondence check (testing); the terminal model of SGR.",
         "technique": "Lean 4 proof (cell-level refinement of the ANSI layer) + differential correspondence with a terminal state machine",
@@ -398,7 +398,7 @@ MANIFEST_TEXT = {
         "technique": "Lean 4 proof (induction over pops with a first-maximum invariant) + differential correspondence",
     },
     "C13": {
-        "text": "Lean theorems over all lists of regex matches (hence all strings) and all widths >= 1 for Wrap (width, content, breaks, word integrity), DumbWrap, Pad, Indent and Snip; the model is tied to ansi.go by a differential correspondence check on generated styled and hostile text, with the same predicates evaluated on the implementation's output.",
+        "text": "Lean theorems over all lists of regex matches (hence all strings) and all widths >= 1 for Wrap (width, content, breaks, word integrity), DumbWrap, Pad, Indent and Snip; the model is tied to ansi.go twice: collapse, Apply, Indent, Pad, DumbWrap, Wrap, lineIsOnlyWhitespace and Snip are translated to Lean on every run (extract/go2lean8.go -> Generated/GoAnsih.lean; the regular expression of expand is a parameter) and proved equal to the model's functions, panics included (Props/Gen13.lean), with the width / content / padding / indentation theorems restated on the translated code (Props/GenT13.lean); and by a differential correspondence check on generated styled and hostile text, with the same predicates evaluated on the implementation's output.",
         "design_ref": "DESIGN.md §5.0, §5 C13",
         "note": "Trusted: Lean kernel; the correspondence check (testing) between ansi.go and lean/Model/Ansi.lean; Go regexp semantics of the expand pattern (validated differentially); unicode.IsSpace table as transcribed.",
         "technique": "Lean 4 proof (induction over the wrap state machine) + differential correspondence",
